@@ -172,6 +172,59 @@ pub fn run(ctx: &Ctx, rep: &mut Report) {
             }
         }
     }
-    let x: Vec<XCase> = cases.iter().map(|c| build(c, ctx.tier.name())).collect();
+    let mut x: Vec<XCase> = cases.iter().map(|c| build(c, ctx.tier.name())).collect();
+    if ctx.replay.is_none() || x.is_empty() {
+        let only = ctx.replay.as_ref().map(|p| serde_json::from_str::<serde_json::Value>(&std::fs::read_to_string(p).unwrap()).unwrap());
+        for u in unsized_cases(ctx.tier.name()) {
+            if let Some(v) = &only {
+                if v["case"]["kind"] != "unsized-field" || v["case"]["item"] != u.detail["item"] || v["case"]["entry"] != u.detail["entry"] {
+                    continue;
+                }
+            }
+            x.push(u);
+        }
+    }
     run_and_compare(rep, "c18", &x);
+}
+
+/// Single-field structs whose field is itself unsized (trait objects with one or several bounds, slices, str, an
+/// unsized parameter): values only exist behind a pointer, reached by the unsizing coercion from a sized instance.
+fn unsized_cases(tier: &str) -> Vec<XCase> {
+    let mut v = Vec::new();
+    let items: [(&str, &str); 7] = [
+        ("pub struct X(pub dyn Tr);", ""),
+        ("pub struct X(pub dyn Tr + Send);", ""),
+        ("pub struct X { pub inner: dyn Tr + Send + Sync }", ""),
+        ("pub struct X<'a>(pub dyn Tr + 'a);", ""),
+        ("pub struct X(pub [u8]);", ""),
+        ("pub struct X { pub inner: str }", ""),
+        // executed: Box<X<[u8]>> by unsizing from X<[u8; 2]>
+        ("pub struct X<T: ?Sized>(pub T);", "let mut x: Box<X<[u8]>> = Box::new(X([1u8, 2])); { let d: &mut [u8] = &mut **x; d[0] = 7; } let a = &x.0 as *const [u8] as *const u8 as usize; let r: &[u8] = &**x; format!(\"{};{};{}\", r[0], r.len(), r.as_ptr() as usize == a)"),
+    ];
+    for (item, body) in items {
+        for entry in Entry::BOTH {
+            let head = match entry {
+                Entry::Attr => "#[derive_ex(Deref, DerefMut)]".to_string(),
+                Entry::Derive => "#[derive(Ex)]\n#[derive_ex(Deref, DerefMut)]".to_string(),
+            };
+            let (run, expected) = if body.is_empty() { ("String::from(\"compiles\")".to_string(), "compiles") } else { (body.to_string(), "7;2;true") };
+            let code = format!("use derive_ex::{{derive_ex, Ex}};\npub trait Tr {{}}\n{head}\n{item}\npub fn run() -> String {{ {run} }}\n");
+            let mut atoms = BTreeSet::new();
+            atoms.insert(format!("entry={}", entry.name()));
+            atoms.insert("field=unsized".to_string());
+            v.push(XCase {
+                text: format!("{} Deref, DerefMut {}", entry.name(), item),
+                code,
+                expected: expected.to_string(),
+                atoms,
+                nontrivial: true,
+                detail: json!({"kind": "unsized-field", "tier": tier, "entry": entry.name(), "item": item}),
+                what: format!("derive_ex(Deref, DerefMut) via {} on `{}`", entry.name(), item),
+                inner: 1,
+                symptom: "deref-does-not-reach-the-field".into(),
+                must_compile: true,
+            });
+        }
+    }
+    v
 }
